@@ -256,6 +256,7 @@ type Exec struct {
 	thrSeq      int
 	explore     bool
 	preemptLeft int
+	schedSeq    int
 	guards      []guardLevel
 	mlog        []mlogRec
 	pendingEval *smt.Evaluator
@@ -370,6 +371,7 @@ func (ex *Exec) RunPath(fn *ssa.Function, trail []uint64) (alts [][]uint64) {
 	ex.thrSeq = 0
 	ex.explore = false
 	ex.preemptLeft = 0
+	ex.schedSeq = 0
 	ex.guards = nil
 	ex.mlog = nil
 	ex.eval = smt.NewEvaluator(map[*smt.Term]uint64{})
